@@ -139,3 +139,63 @@ func VerifC08_Exact(la, lb, dirty int) {
 	vAssert(isLeft == (optL > optR), "pe-direction-flag")
 	vReach("end")
 }
+
+// ----- fast mode -----
+// The 4-mer heuristic (obikmer.Index4mer / FastShiftFourMer, decided separately by C19) is replaced by its
+// contract: it reports the offset refpos - pos of some 4-mer shared by the two reads (so -(lb-4) <= shift <=
+// la-4) with a count >= 1, or (0, 0) when the reads share none.  Whatever it reports, the path PEAlign builds
+// around that offset must consume both reads exactly.
+
+var vFastShift, vFastCount int
+
+//verif:stub MOD/pkg/obikmer.Index4mer = vIndex4mer
+//verif:stub MOD/pkg/obikmer.FastShiftFourMer = vFastShiftFourMer
+func vIndex4mer(seq *obiseq.BioSequence, index *[][]int, buffer *[]byte) [][]int { return nil }
+
+func vFastShiftFourMer(index [][]int, shifts *map[int]int, lindex int, seq *obiseq.BioSequence, relscore bool, buffer *[]byte) (int, int, float64) {
+	return vFastShift, vFastCount, 0.5
+}
+
+func VerifC08_Fast(la, lb, delta int) {
+	if la < 1 || lb < 1 {
+		vSkip()
+		return
+	}
+	shift, count := 0, 0
+	if la >= 4 && lb >= 4 {
+		shift, count = vInt(-(lb - 4), la-4), vInt(0, la)
+	}
+	a, b := vBytes(la, "acgt"), vBytes(lb, "acgt")
+	qa, qb := vBytes(la, "\x0a\x14\x28"), vBytes(lb, "\x0a\x14\x28")
+	vAssume(count >= 1 || shift == 0)
+	if !_InitializedDnaScore {
+		_InitDNAScoreMatrix()
+	}
+	seqA, seqB := vMakeRead("a", a, qa), vMakeRead("b", b, qb)
+	arena := MakePEAlignArena(la, lb)
+	shifts := make(map[int]int)
+	vFastShift, vFastCount = shift, count
+	var path []int
+	k := vCatch(func() {
+		_, _, path, _, _, _ = PEAlign(seqA, seqB, 2.0, 1.0, true, delta, false, arena, &shifts)
+	})
+	vAssert(k == 0, "pe-fast-no-panic")
+	if k != 0 {
+		return
+	}
+	i, j := 0, 0
+	wellFormed := len(path)%2 == 0
+	for p := 0; p+1 < len(path); p += 2 {
+		step, diag := path[p], path[p+1]
+		wellFormed = wellFormed && diag >= 0
+		if step < 0 {
+			i -= step
+		} else {
+			j += step
+		}
+		i += diag
+		j += diag
+	}
+	vAssert(wellFormed && i == la && j == lb, "pe-fast-path-consumes-both-reads-exactly")
+	vReach("end")
+}
